@@ -3,7 +3,7 @@
    answers "yes" without such an element (or a zero-length prefix over a non-empty set).  The search
    index of the pinned toolchain's loop always lies inside the slice, whatever the comparator. *)
 From Coq Require Import List Bool Arith NArith Lia.
-From Akd Require Import Bits NodeLabel NodeLabelFacts ElemSet.
+From Akd Require Import Bits NodeLabel NodeLabelFacts ElemSet ElemSetFacts.
 Import ListNotations.
 
 Section Search.
@@ -139,3 +139,82 @@ Example contains_prefix_forms_differ_on_longer_prefix :
   eset_contains_prefix (BinarySearchable [x]) p = true /\
   eset_contains_prefix (Unsorted [x]) p = false.
 Proof. vm_compute. split; reflexivity. Qed.
+
+(* ------------------------------------------------------------------ completeness of a search
+   The toolchain's loop only asks whether the comparator answers Greater, so it behaves as the
+   partition-point search for "not Greater"; on a slice that the comparator splits into
+   (not Greater)* Greater* with at least one Equal at the end of the first part, the search hits. *)
+Section SearchComplete.
+  Context {A : Type}.
+  Variable f : A -> comparison.
+  Variable d : A.
+  Variable l : list A.
+  Let p := fun x => match f x with Gt => false | _ => true end.
+  Let g := fun x => if p x then Lt else Gt.
+
+  Lemma bs_loop_only_asks_greater : forall fuel base size,
+    bs_loop f d l fuel base size = bs_loop g d l fuel base size.
+  Proof.
+    induction fuel as [|fu IH]; intros base size; cbn [bs_loop]; [reflexivity|].
+    destruct (size <=? 1)%nat; [reflexivity|].
+    rewrite IH. unfold g, p. destruct (f (nth (base + Nat.div2 size) l d)); reflexivity.
+  Qed.
+
+  Lemma bs_loop_start_or_not_greater : forall fuel base size,
+    bs_loop f d l fuel base size = base \/ f (nth (bs_loop f d l fuel base size) l d) <> Gt.
+  Proof.
+    induction fuel as [|fu IH]; intros base size; cbn [bs_loop]; [left; reflexivity|].
+    destruct (size <=? 1)%nat; [left; reflexivity|].
+    destruct (f (nth (base + Nat.div2 size) l d)) eqn:Ef;
+      match goal with
+      | |- bs_loop f d l fu ?b ?s = _ \/ _ => destruct (IH b s) as [E|E]
+      end;
+      try (right; exact E); try (left; exact E);
+      right; rewrite E, Ef; discriminate.
+  Qed.
+
+  Theorem binary_search_complete j :
+    (1 <= j <= length l)%nat ->
+    (forall n, (n < j)%nat -> f (nth n l d) <> Gt) ->
+    (forall n, (j <= n)%nat -> (n < length l)%nat -> f (nth n l d) = Gt) ->
+    f (nth (j - 1) l d) = Eq ->
+    binary_search_by f d l = (true, (j - 1)%nat).
+  Proof.
+    intros [Hj1 Hj2] Hlo Hhi Heq.
+    assert (HB : boundary p d l j).
+    { split; [exact Hj2|]. split.
+      - intros n Hn. unfold p. specialize (Hlo n Hn). destruct (f (nth n l d)); congruence.
+      - intros n Hn1 Hn2. unfold p. rewrite (Hhi n Hn1 Hn2). reflexivity. }
+    unfold binary_search_by. destruct l as [|x r] eqn:El; [cbn in Hj2; lia|].
+    rewrite <- El in *.
+    assert (Hlen : (1 <= length l)%nat) by (rewrite El; cbn; lia).
+    pose proof (bs_loop_spec p d l j HB (length l) 0 (length l)
+                  ltac:(lia) Hlen ltac:(lia) ltac:(lia) ltac:(lia)) as (B1 & B2 & B3).
+    fold g in B1, B2, B3. rewrite <- bs_loop_only_asks_greater in B1, B2, B3.
+    destruct (bs_loop_start_or_not_greater (length l) 0 (length l)) as [E0|Eng].
+    - (* the loop never moved: base 0 *)
+      rewrite E0 in *. assert (j = 1)%nat by lia. subst j. cbn [Nat.sub] in Heq.
+      rewrite Heq. reflexivity.
+    - set (b := bs_loop f d l (length l) 0 (length l)) in *.
+      assert (Hb : b = (j - 1)%nat).
+      { destruct (Nat.eq_dec b j) as [Ej|Nj]; [|lia].
+        exfalso. apply Eng. apply Hhi; lia. }
+      rewrite Hb, Heq. reflexivity.
+  Qed.
+End SearchComplete.
+
+(* contains_prefix: whenever the slice is split by the comparator of the code as above - the
+   elements whose value bytes are greater than the prefix's and which do not extend it all come
+   last, and the element just before them extends the prefix - the search form answers yes *)
+Theorem contains_prefix_sorted_complete p l j :
+  let f := fun c => if (llen p =? 0)%N || is_prefix_of p (e_label c) then Eq
+                    else bytes_cmp (lval (e_label c)) (lval p) in
+  (1 <= j <= length l)%nat ->
+  (forall n, (n < j)%nat -> f (nth n l dummy_elem) <> Gt) ->
+  (forall n, (j <= n)%nat -> (n < length l)%nat -> f (nth n l dummy_elem) = Gt) ->
+  f (nth (j - 1) l dummy_elem) = Eq ->
+  eset_contains_prefix (BinarySearchable l) p = true.
+Proof.
+  intros f Hj Hlo Hhi Heq. cbn [eset_contains_prefix]. fold f.
+  rewrite (binary_search_complete f dummy_elem l j Hj Hlo Hhi Heq). reflexivity.
+Qed.
